@@ -6,8 +6,10 @@ package adapters
 
 import (
 	"fmt"
+	"math/rand"
 	"os"
 	"path/filepath"
+	"sort"
 	"time"
 
 	"verifh/simsched"
@@ -36,8 +38,10 @@ type Sim struct {
 	Monitor func(st simsched.Step) []Violation
 	// Final runs at the end of a run (quiescent-point checks).
 	Final func(res simsched.RunResult) []Violation
-	// Describe returns adapter parameters for evidence samples.
+	// Params describes the configuration (for evidence samples and replay files).
 	Params map[string]any
+	// MaxSteps is the recommended bound on committed steps for one run.
+	MaxSteps int
 }
 
 // Violation is a monitor report.
@@ -97,4 +101,38 @@ func (sim *Sim) Validate(scratch string, states []string, timeout time.Duration)
 		SpecFiles: sim.SpecFiles, Module: sim.Module, Constants: sim.Constants, Invariants: sim.Invariants,
 		Vars: sim.Sched.TLAVars(), States: states, Timeout: timeout,
 	})
+}
+
+// Factory builds sims of one spec/Go pair. exact=true: the harness resources implement the spec's mapping
+// macros exactly (the trace must be accepted by TLC against the shipped spec); exact=false: the same macros
+// instrumented with unique ids where the spec uses constants (for conservation / exactly-once monitors) —
+// such traces are NOT sent to TLC. The factory draws its own configuration (sizes, bounds) from rng.
+type Factory struct {
+	Name string
+	Tags []string // checks that use it: "c02", "c14", "c15", "c16", "c08", "c09"
+	New  func(seed int64, exact bool, rng *rand.Rand) *Sim
+}
+
+var registry []Factory
+
+// Register adds a factory (called from init functions of adapter files).
+func Register(f Factory) { registry = append(registry, f) }
+
+// Factories returns the factories carrying tag ("" = all), in name order.
+func Factories(tag string) []Factory {
+	var out []Factory
+	for _, f := range registry {
+		if tag == "" {
+			out = append(out, f)
+			continue
+		}
+		for _, t := range f.Tags {
+			if t == tag {
+				out = append(out, f)
+				break
+			}
+		}
+	}
+	sort.Slice(out, func(i, j int) bool { return out[i].Name < out[j].Name })
+	return out
 }
